@@ -52,6 +52,7 @@ func run(c *vrt.Ctx) {
 	h.planCross(add)
 	h.planHistories(add)
 	h.planBoundary(add)
+	h.planSweeps(add)
 	h.planDefects(add)
 
 	sort.SliceStable(jobs, func(i, j int) bool { return jobs[i].cost > jobs[j].cost })
@@ -488,6 +489,50 @@ func (h *H) planBoundary(add addFn) {
 				idx++
 				i, m, n := idx, m, n
 				add("cond-relations", m*n*max(m, n)*4, func() { h.checkCondRelations(i, m, n) })
+			}
+		}
+	}
+}
+
+// planSweeps: the Exp norm sweep across the implementation's thresholds
+// and the graded-scaling determinant classes (both tiers).
+func (h *H) planSweeps(add addFn) {
+	idx := 0
+	for rep := 0; rep < h.pick(1, 3); rep++ {
+		for _, n := range []int{1, 2, 3} {
+			for _, cls := range []string{"general", "symmetric", "normal", "nilpotent", "diagonal", "skew"} {
+				idx++
+				i, n, cls := idx, n, cls
+				add("exp-sweep", 200000, func() { h.checkExpSweep(i, n, cls) })
+			}
+		}
+		for _, cls := range []string{"diagonal", "symmetric", "skew"} {
+			idx++
+			i, cls := idx, cls
+			add("exp-sweep", 400000, func() { h.checkExpSweep(i, 8, cls) })
+		}
+	}
+	idx = 0
+	for rep := 0; rep < h.pick(1, 4); rep++ {
+		for _, n := range []int{1, 2, 3, 6, 9, 17} {
+			for _, sym := range []bool{true, false} {
+				for _, pat := range []string{"large-first", "small-first", "interleaved"} {
+					for _, e := range []int{40, 300} {
+						idx++
+						i, n, sym, pat, e := idx, n, sym, pat, e
+						add("det-graded", n*n*n*10, func() { h.checkDetGraded(i, n, pat, e, sym) })
+					}
+				}
+				for _, pat := range []string{"uniform-huge", "uniform-tiny"} {
+					for _, e := range []int{100, 300} {
+						if !sym {
+							continue
+						}
+						idx++
+						i, n, pat, e := idx, n, pat, e
+						add("det-graded", n*n*n*10, func() { h.checkDetGraded(i, n, pat, e, true) })
+					}
+				}
 			}
 		}
 	}
